@@ -330,7 +330,9 @@ class TypeBlocks(ContainerOperand):
         Return an immutable array that, for each realizable column (not each block), the dtype is given.
         '''
         # this creates a new array every time it is called; could cache
-        a = np.array(self._dtypes, dtype=np.dtype)
+        # NOTE: np.dtype is not a valid dtype specifier in NumPy 2; dtype instances are stored as objects
+        a = np.empty(len(self._dtypes), dtype=DTYPE_OBJECT)
+        a[NULL_SLICE] = self._dtypes
         a.flags.writeable = False
         return a
 
